@@ -10,7 +10,8 @@ rc and the shifts are never written after construction; the conjugations are T(r
 (about centre), RcParams3 composes shift1 . p . shift0 with shift0 = T(-rc), shift1 = T(initial*rc); every Jacobian helper takes
 its lever arm from params.current_rc() (the MOVED centre), uses rd.x, rd.y, rd.z for rows 3..5 in that order, the reverse
 variant negates the sign and uses the reference point, and the plane Jacobian carries signum(scalar_projection) to match the
-|.| residual; ParamHandler::set_param copies the raw vector and recomputes every non-static body from its own 6-slice."""
+|.| residual; ParamHandler::set_param copies the raw vector and recomputes every non-static body from its own 6-slice.
+RotationMatrices::from_rotation = from_euler(to_wpr(to_matrix(q))) on every path: no small rotation is short-cut to the identity."""
 NOT_DECIDED = "that any Jacobian entry equals a derivative; that the Euler formulas invert from_euler (only WHICH branch is taken at gimbal lock and what it returns is decided); parameter round-trips (symbolic differentiation of the matrix expressions would be symbolic execution)"
 ASSUMPTIONS = ["nalgebra Isometry product is composition (left factor applied last)"]
 
